@@ -150,9 +150,10 @@ example : ((TP.run exKinds exOps).map fun o => ((o.snap 0).e, (o.snap 0).s, (o.s
 /-- Main theorem (logger provider): for every pool of log processors (recording, simple/batch around a recording
 or a nil exporter) and EVERY op sequence (Logger, Emit on any logger slot, ForceFlush/Shutdown with live or done
 contexts) with EVERY resolution `Choice` of the `select` races a done context opens in the batch processor (which
-calls report the context error, how many queued records the raced final drain still exports, whether the raced
-flush reaches the exporter), the model's run passes the whole reference oracle `Spec.LP.check`: all four clauses
-at once, no exclusion. The next three theorems are its projections. -/
+calls report the context error, how many records have been exported when the raced ForceFlush / final drain
+returns, whether the raced flush reaches the exporter), the model's run passes the whole reference oracle
+`Spec.LP.check`: all four clauses at once, no exclusion. The next three theorems are its projections. Exports that
+arrive asynchronously after a raced call has returned: `PropsLag.lp_lifecycle_async`. -/
 theorem lp_lifecycle (kinds : List LP.LKind) (ops : List LP.Op) :
     Spec.LP.check kinds ops (LP.run kinds ops) = Spec.Fails.none := by
   have := LemmasLP.checkFrom_none (kinds := kinds) ops (LP.init kinds) {} (LemmasLP.inv_init kinds)
@@ -163,8 +164,9 @@ theorem lp_lifecycle (kinds : List LP.LKind) (ops : List LP.Op) :
 
 /-- Clause "further telemetry … nothing more is exported" (logger provider): at every step a recording processor
 has seen exactly the records emitted through SDK loggers before Shutdown, a simple processor's exporter has
-received exactly those, a batch processor's exporter exactly those at every (live or raced) ForceFlush and at a
-live Shutdown, never more, and nothing moves at any other step — in particular nothing after Shutdown. -/
+received exactly those, a batch processor's exporter exactly those when a live ForceFlush / Shutdown returns, some
+of them (never more) when a raced one returns, and no other call moves anything — in particular nothing after
+Shutdown. -/
 theorem lp_export_exact (kinds : List LP.LKind) (ops : List LP.Op) :
     (Spec.LP.check kinds ops (LP.run kinds ops)).m = false := by
   rw [lp_lifecycle kinds ops]; rfl
@@ -297,8 +299,8 @@ theorem lifecycle_all_providers :
 
 /-- every race lost: the raced calls report the context error, nothing more is exported -/
 def chLose : Choice := { e := fun _ => true, k := fun _ => 0 }
-/-- every race won: nil, one queued record still exported / exporter reached -/
-def chWin : Choice := { e := fun _ => false, k := fun _ => 1 }
+/-- every race won: nil, one queued record exported before the raced call returns / exporter reached -/
+def chWin : Choice := { e := fun _ => false, k := fun _ => 1, x := fun _ => 1 }
 
 /-- all five processor kinds; emits before/after a raced ForceFlush, a first Shutdown with an expired context whose
 final drain is cut short after one record, then emits on an old SDK logger, a new (no-op) logger, flush, shutdown -/
@@ -312,14 +314,16 @@ example : Spec.LP.check exLKinds exLOps (LP.run exLKinds exLOps) = Spec.Fails.no
 example : (LP.run exLKinds exLOps).map (·.res) =
     [.sdk, .none, .none, .err true false false, .none, .ok, .none, .none, .ok, .none, .none, .ok, .none, .noop,
      .none, .ok, .ok, .ok] := by decide
-/-- recording processor: 6 records, 3 flushes, 1 shutdown; batch exporter: 5 of the 6 records (one lost in the
-raced final drain), 2 flushes reached it (the lost race did not), 1 shutdown -/
+/-- recording processor: 6 records, 3 flushes, 1 shutdown; batch exporter: 4 of the 6 records when the last call
+returns (the lost raced flush exported nothing at once — its record went out with the next live flush —, the won
+raced flush one of two, the raced final drain one of three: two stay pending/lost), 2 flushes reached it (the
+lost race did not), 1 shutdown -/
 example : ((LP.run exLKinds exLOps).map fun o => ((o.snap 0).e, (o.snap 0).f, (o.snap 0).s, (o.snap 2).n,
-    (o.snap 2).f, (o.snap 2).s)).getLast? = some (6, 3, 1, 5, 2, 1) := by decide
+    (o.snap 2).f, (o.snap 2).s)).getLast? = some (6, 3, 1, 4, 2, 1) := by decide
 /-- instance of `lp_silent_after_shutdown` (the Shutdown is op 11): results of the six later calls, counters frozen -/
 example : ((LP.run exLKinds exLOps).drop 12).map (fun o => (o.res, (o.snap 0).e, (o.snap 1).n, (o.snap 2).n, (o.snap 2).s)) =
-    [(.none, 6, 6, 5, 1), (.noop, 6, 6, 5, 1), (.none, 6, 6, 5, 1), (.ok, 6, 6, 5, 1), (.ok, 6, 6, 5, 1),
-     (.ok, 6, 6, 5, 1)] := by decide
+    [(.none, 6, 6, 4, 1), (.noop, 6, 6, 4, 1), (.none, 6, 6, 4, 1), (.ok, 6, 6, 4, 1), (.ok, 6, 6, 4, 1),
+     (.ok, 6, 6, 4, 1)] := by decide
 /-- the oracle is not vacuous: an observation in which the exporter is shut down a second time fails clause `o` -/
 example : (Spec.LP.check [.simpleRec] [.shutdown .bg chWin, .shutdown .bg chWin]
     [{ res := .ok, snap := fun _ => { s := 1 } }, { res := .ok, snap := fun _ => { s := 2 } }]).o = true := by decide
